@@ -422,6 +422,18 @@ func coreMutations(valid []byte) []mut {
 	return ms
 }
 
+// decompressor frame headers that announce a large decoded size for a handful of bytes
+func frameMutations(valid []byte) []mut {
+	var ms []mut
+	for i := 0; i+10 <= len(valid); i++ {
+		if valid[i] == 0x28 && valid[i+1] == 0xb5 && valid[i+2] == 0x2f && valid[i+3] == 0xfd {
+			// zstd: frame header descriptor 0x80 (4-byte content size), window descriptor 0, content size 0x28000000
+			ms = append(ms, mut{"zstd-content-size", with(valid, i+4, []byte{0x80, 0x00, 0x00, 0x00, 0x00, 0x28}, 6)})
+		}
+	}
+	return ms
+}
+
 func patName(v, rem int64) string {
 	switch {
 	case v == rem+1:
@@ -558,6 +570,24 @@ func isPrefixBlockwise(mut, orig string) bool {
 	return true
 }
 
+// codecTag names the decompressor whose frame magic occurs in the input of an entry point that can reach
+// decompress() (so that an oversize allocation inside one decompression library has its own signature)
+func codecTag(e *entryInfo, input []byte) string {
+	if !e.Decomp {
+		return ""
+	}
+	h := hx(input)
+	switch {
+	case strings.Contains(h, "28b52ffd"):
+		return ":zstd"
+	case strings.Contains(h, "04224d18"):
+		return ":lz4"
+	case strings.Contains(h, "1f8b08"):
+		return ":gzip"
+	}
+	return ""
+}
+
 func modelLimit(n int) uint64 { return uint64(1<<20) + 64*uint64(n) }
 
 // evaluate the oracle on one entry-point result; emits the differential line when the entry has a Lean format
@@ -575,7 +605,11 @@ func judge(op entryOp, r opResult) {
 		class = r.dead
 		run.Count("class:" + class)
 		detail := "worker subprocess " + map[string]string{"oversize": "killed by the memory cap (fatal, not recoverable)", "crash": "crashed", "hang": "did not answer within the watchdog timeout"}[class] + ": " + r.stderr
-		fail(e.Name+":"+class, replay, detail)
+		tag := ""
+		if class == "oversize" {
+			tag = codecTag(e, op.input)
+		}
+		fail(e.Name+":"+class+tag, replay, detail)
 	} else {
 		f := strings.Split(r.line, "\t")
 		if len(f) < 5 {
@@ -592,7 +626,7 @@ func judge(op entryOp, r opResult) {
 		case "panic":
 			fail(e.Name+":panic:"+kind+"@"+site, replay, "recovered panic ("+kind+") in "+site)
 		case "oversize":
-			fail(e.Name+":oversize", replay, fmt.Sprintf("%d bytes allocated while decoding %d input bytes (limit %d)", alloc, len(op.input), allocLimit(len(op.input), e.Decomp)))
+			fail(e.Name+":oversize"+codecTag(e, op.input), replay, fmt.Sprintf("%d bytes allocated while decoding %d input bytes (limit %d)", alloc, len(op.input), allocLimit(len(op.input), e.Decomp)))
 		case "ok":
 			if op.trail {
 				fail("trailing-bytes-accepted:"+e.Name, replay, "a valid encoding followed by extra bytes decoded without error")
@@ -739,6 +773,11 @@ func opsForSample(s sample, budgetExtra int) []entryOp {
 	}
 	for _, m := range coreMutations(s.valid) {
 		out = append(out, mk(m.kind, m.data))
+	}
+	if e.Decomp {
+		for _, m := range frameMutations(s.valid) {
+			out = append(out, mk(m.kind, m.data))
+		}
 	}
 	if (e.Name == "MessageBlock" || e.Name == "MessageSet") && len(s.valid) >= 12 {
 		// the 4-byte length of the (first) message block says one byte less than is there
